@@ -171,13 +171,20 @@ class DirectoryResourcePopulator:
                 elif pt.isfile(full_file_path):
                     new_resource = rule.instantiate(full_file_path)
 
-                    # Add scope level if a conflicting handle is encountered?
-                    if nest_on_conflict:
-                        handle = resource_map.get(resource_string)
-                        if (handle is not None
-                            and handle is handle.parent.handles.maps[0].get(
-                                handle.key)):
-                            handle.parent.handles.maps.insert(0, {})
+                    # A handle already owns the key: shadow it (adding a
+                    # scope level if needed) or drop it
+                    handle = resource_map.get(resource_string)
+                    if isinstance(handle, Handle):
+                        scopes = handle.parent.handles.maps
+                        if not nest_on_conflict:
+                            # It may live in an outer scope, where the
+                            # assignment below would only shadow it
+                            for scope in scopes:
+                                if scope.get(handle.key) is handle:
+                                    del scope[handle.key]
+                                    break
+                        elif handle is scopes[0].get(handle.key):
+                            scopes.insert(0, {})
 
                 if new_resource is not None:
                     resource_map[resource_string] = new_resource
